@@ -934,8 +934,23 @@ func executePlannedSelection(eCtx *executionContext, sp *selectionPlan, source i
 // coercion.
 func resolvePlannedField(eCtx *executionContext, parentType *Object, source interface{}, fp *fieldPlan, path *ResponsePath) (result interface{}, ok bool) {
 	var returnType Output
+	// Set while the extensions' resolve phase of this field is started and
+	// not yet finished.
+	var resolveFieldFinishFn resolveFieldFinishFuncHandler
 	defer func() {
 		if r := recover(); r != nil {
+			if finishFn := resolveFieldFinishFn; finishFn != nil {
+				// The resolver panicked: the phase the extensions started
+				// is finished with that failure.
+				resolveFieldFinishFn = nil
+				resolveErr, isErr := r.(error)
+				if !isErr {
+					resolveErr = fmt.Errorf("%v", r)
+				}
+				if extErrs := finishFn(nil, resolveErr); len(extErrs) != 0 {
+					eCtx.Errors = append(eCtx.Errors, extErrs...)
+				}
+			}
 			handleFieldError(r, FieldASTsToNodeASTs(fp.fieldASTs), path, returnType, eCtx)
 			result = nil
 			ok = true
@@ -982,7 +997,6 @@ func resolvePlannedField(eCtx *executionContext, parentType *Object, source inte
 	// Extensions allocate a per-field map + closure even when none are
 	// registered. Skip entirely on the common no-extensions schema —
 	// saves ~22% of allocs per resolved field on hot paths.
-	var resolveFieldFinishFn resolveFieldFinishFuncHandler
 	if len(eCtx.Schema.extensions) > 0 {
 		var extErrs []gqlerrors.FormattedError
 		extErrs, resolveFieldFinishFn = handleExtensionsResolveFieldDidStart(eCtx.Schema.extensions, eCtx, &info)
@@ -999,8 +1013,9 @@ func resolvePlannedField(eCtx *executionContext, parentType *Object, source inte
 		Context: eCtx.Context,
 	})
 
-	if resolveFieldFinishFn != nil {
-		extErrs := resolveFieldFinishFn(result, resolveFnError)
+	if finishFn := resolveFieldFinishFn; finishFn != nil {
+		resolveFieldFinishFn = nil
+		extErrs := finishFn(result, resolveFnError)
 		if len(extErrs) != 0 {
 			eCtx.Errors = append(eCtx.Errors, extErrs...)
 		}
